@@ -169,14 +169,27 @@ def run_threads(ctx, nproc, rounds):
         path = os.path.join(d, "in%d.txt" % i)
         with open(path, "w") as f:
             f.write(thread_input(rng, rng.randint(10, 40)))
-        p = subprocess.run([binary, path, str(rounds), str(ctx.seed * 1000 + i)], stdout=subprocess.PIPE, stderr=subprocess.PIPE,
-                           text=True, env=env, timeout=900)
-        return i, p.returncode, p.stdout, p.stderr
+        # a generous wall-clock watchdog (a process takes seconds); its firing is inconclusive unless the very same process
+        # does not finish a second time either - the core has no locks, so a reproducible hang is a loop over corrupted state
+        for attempt in (1, 2):
+            try:
+                p = subprocess.run([binary, path, str(rounds), str(ctx.seed * 1000 + i)], stdout=subprocess.PIPE, stderr=subprocess.PIPE,
+                                   text=True, env=env, timeout=300)
+                return i, p.returncode, p.stdout, p.stderr
+            except subprocess.TimeoutExpired as e:
+                last = e
+        err = last.stderr if isinstance(last.stderr, str) else (last.stderr or b"").decode("latin1")
+        out = last.stdout if isinstance(last.stdout, str) else (last.stdout or b"").decode("latin1")
+        return i, "hang", out, err
 
     with ThreadPoolExecutor(max_workers=H.NCPU) as ex:
         results = list(ex.map(one, range(nproc)))
     races = {}
     for i, rc, out, err in results:
+        if rc == "hang":
+            rep.violation("C17:threads-do-not-finish", "vh_threads process %d (two threads, one interface each, ThreadSanitizer build) did "
+                          "not finish within 300 s, twice in a row; it normally takes seconds" % i,
+                          replay="# vh_threads input:\n" + "".join("# " + ln + "\n" for ln in open(os.path.join(d, "in%d.txt" % i)).read().split("\n")[:400]))
         stats = dict(re.findall(r"STAT (\S+) (\d+)", out))
         rep.count("thread_rounds", int(stats.get("rounds", 0)))
         rep.evaluations += int(stats.get("rounds", 0))
@@ -200,7 +213,7 @@ def run_threads(ctx, nproc, rounds):
                 rep.count("tsan_reports")
             elif key.startswith("tsan:"):
                 rep.count("tsan_reports_outside_core")
-        if rc not in (0, 96) and "ThreadSanitizer" not in err:
+        if rc not in (0, 96, "hang") and "ThreadSanitizer" not in err:
             rep.inconclusive.append("vh_threads process %d exited %d: %s" % (i, rc, err[-300:]))
     if results:
         i0, rc0, out0, err0 = results[0]
